@@ -12,32 +12,45 @@ ID = "C03"
 LEVEL = "proof"
 HARNESSES = [
     {"name": "main", "src": "harness.cpp", "flags": ["-O1", "-DTETL_ENABLE_CONTRACT_CHECKS=1"]},
+    # the same histories in a build WITHOUT exceptions (the usual embedded configuration): the `#else` branch of every
+    # `#if defined(__cpp_exceptions)` split of the library (uninitialized_copy / _move / _fill, reached through the
+    # inplace_vector copy / move members and the static_vector(n, value) constructor) is compiled only here.  The cases
+    # whose element constructor throws print `skip` in this build.
+    {"name": "noexc", "src": "harness.cpp", "flags": ["-O1", "-fno-exceptions", "-DC03_EXPECT_NOEXC", "-DTETL_ENABLE_CONTRACT_CHECKS=1"]},
     # the same histories under ASan + UBSan (a report = `crash` = disagreement with the model)
     {"name": "asan", "src": "harness.cpp", "flags": ["-O1", "-g", "-fsanitize=address,undefined", "-fno-sanitize-recover=all",
                                                       "-DTETL_ENABLE_CONTRACT_CHECKS=1"], "thorough_only": True},
+    {"name": "asan_noexc", "src": "harness.cpp", "flags": ["-O1", "-g", "-fno-exceptions", "-DC03_EXPECT_NOEXC",
+                                                            "-fsanitize=address,undefined", "-fno-sanitize-recover=all",
+                                                            "-DTETL_ENABLE_CONTRACT_CHECKS=1"], "thorough_only": True},
 ]
 RULE = ("a case = a whole operation history on two objects of one family, from their construction to both destructors, run three "
         "times: lifecycle projection (hist), complete event order (rawhist), monitor verdict (mon). Families: static_vector / "
-        "inplace_vector (capacities 0,1,2,3,4,16) / stack / static_set / flat_set (1,2,3,4,16), variant<T0,int,T2> / optional<T> / "
-        "expected<T,E> / inplace_function<int(int*),16>, pair<T0,T1> / tuple<T0,T1,T2> / T[3], each over a copy+move, move-only or "
+        "inplace_vector (capacities 0,1,2,3,4,16) / stack / static_set / flat_set (1,2,3,4,16), variant<T0,int,T2> / "
+        "variant<T0,int,T2,Pod> (Pod: trivially destructible class type) / optional<T> / expected<T,E> / inplace_function<int(int*),16>, pair<T0,T1> / tuple<T0,T1,T2> / T[3], each over a copy+move, move-only or "
         "copy-only instrumented element (variant family: also copy-only with a defaulted assignment). Exhaustive part: vectors - every "
         "size state (n0 <= cap, n1 in {0,min(cap,2)}) at cap <= 3 x every single operation with every position/count argument in "
         "[0, size+1] / [0, room+1] (range members with pointer AND forward-iterator sources, construction from T[n]), pairs of "
         "lifetime-heavy operations at cap 3, depth-3 inplace_vector histories (sampled in quick); sets - every single operation with "
         "keys below/equal/between/above the present ones from every size state; variant-like - every single operation from every pair "
-        "of index states (all from/to combinations), sampled pairs; pair/tuple - every pair of operations. Random part: seeded "
+        "of index states (all from/to combinations), sampled pairs; variant: every (held, new) alternative pair x every way of replacing the "
+        "held alternative (emplace<I> by index, emplace<T> by type, converting assignment from an rvalue / lvalue, assignment from a temporary "
+        "variant built by in_place_index / in_place_type) followed by two further replacements by type; pair/tuple - every pair of operations. Random part: seeded "
         "capacity-aware histories of length <= 40 biased to full/empty; ~10% of the vector histories end in a precondition violation "
         "(after which only the legality of the prefix is compared). pcopy / pown: element type with trivial default constructor, "
         "destructor and copy assignment but a user-provided copy constructor - every (capacity 1-4, source size, target size) resp. "
         "every from/to index pair x copy/move construction/assignment: which copy constructor ran on which storage from which source; "
-        "uhist / umon: uninitialized_copy / _move / _fill of 0..6 elements whose constructor throws at every position (or never); "
+        "uhist / umon: uninitialized_copy / _move / _fill of 0..6 elements whose constructor throws at every position (or never), incl. the "
+        "returned iterator; every case runs in two builds: with exceptions (main) and with -fno-exceptions (noexc: the other branch of "
+        "the library's __cpp_exceptions splits; the throwing cases are skipped there); "
         "non-trivial = distinct history whose log contains at least one move/copy between two locations")
 TRUSTED_BASE = ["reference leg: the constant verdict `wf 1 alive 0 [st 1] self 1...`; its domain (validity of the history) is decided by "
                 "replaying the history on libstdc++ std::vector<int> (sets: sorted std::vector) with the documented preconditions; "
                 "variant-like: an empty function is not invoked",
                 "impl leg of `mon`: the C++ re-implementation of the lifetime automaton in props/C03/c03_track.hpp (cross-checked against the "
                 "extracted Coq automaton on every `hist` case), applied to the log written by the instrumented element types"]
-ASSUMPTIONS = ["element special members do not throw (exception paths of uninitialized_copy/move are outside the model)",
+ASSUMPTIONS = ["element special members do not throw through the containers (the exception path of uninitialized_copy / _move / _fill themselves is "
+               "modelled: coq/C03/ModelMem.v, ops uhist / umon)",
                "a moved-from instrumented element holds the marker -1 (copy+move and move-only flavours)",
                "contract checks enabled (a history that violates a precondition stops at the TETL_PRECONDITION)"]
 
@@ -220,6 +233,9 @@ OWN_KINDS = {
     # kind: (indices, flavours)
     # flavour t: copy-only with a defaulted (trivial) copy assignment but user-provided copy constructor / destructor
     "var": ([0, 1, 2], ["cm", "m", "c", "t"]),
+    # variant<T0, int, T2, Pod>: Pod = trivially destructible CLASS type (alternative 3, not instrumented); unlike int it
+    # reaches the converting assignment template, which replaces a different held alternative through emplace<Pod> BY TYPE
+    "vpd": ([0, 1, 2, 3], ["cm", "m", "c", "t"]),
     "opt": ([0, 1], ["cm", "m", "c", "t"]),
     "exp": ([0, 1], ["cm", "m", "c", "t"]),
     "fun": ([0, 1, 2], ["cm", "c"]),
@@ -233,12 +249,15 @@ def own_both(family, ops):
 
 
 def own_allowed(family, op):
-    return not (family.endswith("_m") and op.split()[0] in OWN_COPY_OPS)
+    t = op.split()
+    if t[0] == "vac" and t[2] == "3":
+        return True        # Pod c(x); v = c: Pod is copyable whatever the instrumented flavour is
+    return not (family.endswith("_m") and t[0] in OWN_COPY_OPS)
 
 
 def own_set(kind, t, i, x):
     """an operation that puts object t into state i"""
-    if kind == "var": return [f"vem {t} {i} {x}"]
+    if kind in ("var", "vpd"): return [f"vem {t} {i} {x}"]
     if kind == "opt": return [f"vem {t} {i} {x}"]
     if kind == "exp": return [f"vem {t} 0 {x}"] if i == 0 else [f"vat {t} 1 {x}"]
     return [f"fas {t} {i} {x}"] if i != 0 else []
@@ -248,11 +267,14 @@ def own_alphabet(kind, x):
     ops = []
     idx = OWN_KINDS[kind][0]
     for t in (0, 1):
-        if kind == "var":
+        if kind in ("var", "vpd"):
             for j in idx:
-                ops += [f"vem {t} {j} {x}", f"var {t} {j} {x}", f"vac {t} {j} {x}", f"vat {t} {j} {x}"]
+                # vem: emplace<j> by index; vet: emplace<Tj> BY TYPE (an overload of its own); var / vac: converting assignment
+                # (a different held alternative is replaced through emplace<Tj> by type); vat / vty: through a temporary variant
+                # built by in_place_index<j> / in_place_type<Tj>
+                ops += [f"vem {t} {j} {x}", f"vet {t} {j} {x}", f"var {t} {j} {x}", f"vac {t} {j} {x}", f"vat {t} {j} {x}", f"vty {t} {j} {x}"]
                 if t == 0:
-                    ops.append(f"vsv 0 {j} {x}")
+                    ops += [f"vsv 0 {j} {x}", f"vsy 0 {j} {x}"]
         elif kind == "opt":
             ops += [f"vem {t} 0 0", f"vem {t} 1 {x}", f"vav {t} 1 {x}", f"vav {t} 0 0", f"vat {t} 0 0", f"vat {t} 1 {x}",
                     f"vvc {t} 1 {x}", f"vvm {t} 1 {x}", f"voc {t}", f"vom {t}",
@@ -279,6 +301,18 @@ def gen_own(tier, rng):
     for kind, (idx, flavours) in OWN_KINDS.items():
         alpha = own_alphabet(kind, 7)
         probes = (["fsw", "fmc 0"] if kind == "fun" else ["vsw", "vmc 0"])
+        if kind in ("var", "vpd"):
+            # every (held, new) pair x every way of replacing the held alternative, followed by a second replacement by type
+            # (a constructor over storage that still holds the first object is seen here at the latest)
+            for i0 in idx:
+                for j in idx:
+                    for how in ("vem", "vet", "var", "vac", "vat", "vty"):
+                        for fl in flavours:
+                            fam = f"{kind}_{fl}"
+                            o = f"{how} 0 {j} 7"
+                            if not own_allowed(fam, o):
+                                continue
+                            out += own_both(fam, own_set(kind, 0, i0, 11) + [o, f"vet 0 {i0} 9", f"vet 0 {j} 5"])
         # every single operation from every pair of states (all from/to index combinations)
         for i0 in idx:
             for i1 in idx:
